@@ -113,7 +113,8 @@ struct World {
   // it yields to the next enabled process without cost, and if nobody else is enabled it is a livelock
   std::vector<uint64_t> curlog; std::vector<char> curlog_sel; int curlog_pid = -1; bool force_yield = false; long forced_yields = 0;
   void fair_note(Proc &p, const Step &st) {
-    if (p.vpid != curlog_pid) { curlog.clear(); curlog_sel.clear(); curlog_pid = p.vpid; }
+    if (p.vpid != curlog_pid) { curlog.clear(); curlog_sel.clear(); curlog_pid = p.vpid; spin_count = 0; }
+    if (curlog.size() > 5000) { curlog.erase(curlog.begin(), curlog.begin() + 2500); curlog_sel.erase(curlog_sel.begin(), curlog_sel.begin() + 2500); }
     uint64_t h = 1469598103934665603ULL; h = fnv(h, &st.op, sizeof st.op); h = fnv(h, st.a, sizeof st.a); h = fnv(h, &st.ret, sizeof st.ret); h = fnv(h, &st.err, sizeof st.err); h = fnvs(h, st.path);
     if (st.data) h = fnvs(h, *st.data);
     curlog.push_back(h); curlog_sel.push_back(st.op == VK_SELECT);
@@ -123,9 +124,11 @@ struct World {
       if (!curlog_sel[n - 1 - k]) continue;
       bool same = true; for (size_t i = 0; i < k && same; i++) if (curlog[n - 1 - i] != curlog[n - 1 - k - i]) same = false;
       if (same && 3 * k <= n) { for (size_t i = 0; i < k && same; i++) if (curlog[n - 1 - i] != curlog[n - 1 - 2 * k - i]) same = false; } else same = false;
-      if (same) { force_yield = true; return; }
+      if (same) { force_yield = true; spin_count++; return; }
     }
+    spin_count = 0;
   }
+  long spin_count = 0;   // consecutive select() iterations of the running process that repeated an earlier block exactly
 
   World() { memset(slot_used, 0, sizeof slot_used); }
 
@@ -387,8 +390,10 @@ struct World {
       size_t pick = 0;
       if (force_yield) {
         force_yield = false;
-        if (curp && en.size() > 1) { pick = 1; forced_yields++; curlog.clear(); curlog_sel.clear(); Proc &q = *en[pick]; cur = q.vpid; step(q); continue; }
-        if (curp && en.size() == 1) { scn->on_livelock(*this, *curp); if (aborted) break; curlog.clear(); curlog_sel.clear(); }
+        if (curp && en.size() > 1) { pick = 1; forced_yields++; curlog.clear(); curlog_sel.clear(); spin_count = 0; Proc &q = *en[pick]; cur = q.vpid; step(q); continue; }
+        // identical system calls can hide internal progress (e.g. skipping finished records held in a buffer): only a very long
+        // run of identical iterations with nobody else able to run is reported as a busy loop
+        if (curp && en.size() == 1 && spin_count >= 1000) { scn->on_livelock(*this, *curp); if (aborted) break; curlog.clear(); curlog_sel.clear(); spin_count = 0; }
       }
       if (en.size() > 1) {
         bool loc = curp && (intrinsic_local(curp->req.op) || scn->local_op(*this, *curp, curp->req)) && !deliverable(*curp);
